@@ -85,6 +85,8 @@ def gen_client(rng, p, n):
             lines += ["adv %d" % rng.choice(advs), "step"]
         elif r < 50:
             q += 1
+            if rng.chance(1, 6):
+                lines.append("cbsend 1")        # the application answers from inside the ASDU handler
             lines += ["rxi %s" % c07.peer_asdu(q).hex(), "step"]
         elif r < 65:
             sidn += 1
@@ -111,6 +113,7 @@ class Ref:
     def __init__(self, p, now, role):
         self.p, self.role = p, role
         self.rx_unacked, self.first_unacked = 0, None
+        self.rx_times, self.rx_acked = [], 0      # arrival times of received I-frames not covered by any N(R) sent so far; N(R) reached
         self.sent = []            # send times of I-frames not yet acknowledged by the peer
         self.sent_total, self.acked_total = 0, 0
         self.last_rx = now
@@ -123,9 +126,11 @@ class Ref:
         a = apci.parse_apdu(frame)
         self.last_rx = now
         if a["kind"] == "I":
-            if self.rx_unacked == 0:
-                self.first_unacked = now
-            self.rx_unacked += 1
+            if a["ns"] != (self.rx_acked + len(self.rx_times)) % 32768:
+                self.other_close_reason = True       # out of sequence: not accepted, the station closes because of it
+                return
+            self.rx_times.append(now)
+            self.rx_unacked, self.first_unacked = len(self.rx_times), self.rx_times[0]
             self._ack(a["nr"])
         elif a["kind"] == "S":
             self._ack(a["nr"])
@@ -149,25 +154,30 @@ class Ref:
             if a["kind"] == "I":
                 self.sent.append(now)
                 self.sent_total += 1
-                acked = True
-            elif a["kind"] == "S":
-                acked = True
+            if a["kind"] in ("I", "S"):
+                # what an I- or S-format APDU acknowledges is what its N(R) says, not the fact that it was sent
+                k = (a["nr"] - self.rx_acked) % 32768
+                if 0 < k <= len(self.rx_times):
+                    self.rx_times = self.rx_times[k:]
+                    self.rx_acked = (self.rx_acked + k) % 32768
+                acked = acked or not self.rx_times
             elif a["kind"] == "U" and a["u"] == 0x43:
                 testfr = True
+        self.rx_unacked, self.first_unacked = len(self.rx_times), (self.rx_times[0] if self.rx_times else None)
         return acked, testfr
 
     def end_of_step(self, now, frames, closed_now):
         p = self.p
         acked, testfr = self.transmitted(now, frames)
-        if acked:
-            self.rx_unacked, self.first_unacked = 0, None
+        if self.alive and closed_now and self.rx_times and self.role == "client":
+            self.problems.append(("ack-before-close", "the station closed the connection on its own initiative with %d received I-frames not acknowledged (last N(R) sent: %d)" % (len(self.rx_times), self.rx_acked)))
         if self.alive and not closed_now:
             if self.rx_unacked >= p["w"]:
                 self.problems.append(("w", "%d received I-frames unacknowledged after a step although w=%d" % (self.rx_unacked, p["w"])))
-                self.rx_unacked = 0
+                self.rx_times, self.rx_acked, self.rx_unacked = [], (self.rx_acked + self.rx_unacked) % 32768, 0
             if self.rx_unacked > 0 and now > self.first_unacked and now - self.first_unacked >= p["t2"] * 1000:
                 self.problems.append(("t2", "received I-frame unacknowledged %d ms after it arrived, t2=%d s" % (now - self.first_unacked, p["t2"])))
-                self.rx_unacked = 0
+                self.rx_times, self.rx_acked, self.rx_unacked = [], (self.rx_acked + self.rx_unacked) % 32768, 0
             if not self.test_pending and not testfr and now > self.last_rx + p["t3"] * 1000 and self.role == "server":
                 self.problems.append(("t3", "no TESTFR act although nothing was received for %d ms, t3=%d s" % (now - self.last_rx, p["t3"])))
                 self.last_rx = now
@@ -296,8 +306,11 @@ def analyse(ck, role, sid, lines, out, p):
             elif t[0] == "rx":
                 pend.append(bytes.fromhex(t[1]))
             elif t[0] == "rxi":
-                pend.append(apci.i_frame(peer_ns, peer_seen, bytes.fromhex(t[1])))
-                peer_ns = (peer_ns + 1) % 32768
+                dns = int(t[2]) if len(t) > 2 else 0          # rxi <asdu> [dns] [dnr]: deviation from the right N(S) / N(R)
+                dnr = int(t[3]) if len(t) > 3 else 0
+                pend.append(apci.i_frame((peer_ns + dns) % 32768, (peer_seen + dnr) % 32768, bytes.fromhex(t[1])))
+                if dns == 0:
+                    peer_ns = (peer_ns + 1) % 32768
             elif t[0] == "rxs":
                 d = int(t[1]) if len(t) > 1 else 0
                 pend.append(apci.s_frame((peer_seen + d) % 32768))
@@ -306,8 +319,6 @@ def analyse(ck, role, sid, lines, out, p):
                     if t[0] == "stopdt" and r.rx_unacked > 0 and not any(apci.parse_apdu(f)["kind"] == "S" for f in fl):
                         r.problems.append(("ack-before-stop", "STOPDT act sent with %d received I-frames unacknowledged" % r.rx_unacked))
                     acked, _ = r.transmitted(now, fl)
-                    if acked:
-                        r.rx_unacked, r.first_unacked = 0, None
             elif t[0] == "close":
                 if r and r.alive:
                     if r.rx_unacked > 0 and not any(apci.parse_apdu(f)["kind"] in ("S", "I") for f in fl):
@@ -489,6 +500,28 @@ def run(ck):
                 t = g
         cs.append(("ct1_%d" % i, cl)); meta["ct1_%d" % i] = p
         ss.append(("st1_%d" % i, sl)); meta["st1_%d" % i] = p
+    # directed, client: (a) the application sends from inside the ASDU handler, then the line is quiet for t2: the frame being handled
+    # must be covered by an acknowledgement within t2 all the same; (b) fewer than w I-frames received, then a frame the client
+    # rejects (sequence error): it closes on its own initiative, after acknowledging what it had accepted
+    for i in range(24 if quick else 300):
+        p = params(rng, quick)
+        p["w"] = max(p["w"], 4)
+        if p["t3"] <= p["t2"]:
+            p["t3"] = p["t2"] + 5
+        if p["t1"] <= p["t2"]:
+            p["t1"] = p["t2"] + 3
+        hdr = ["cfg k=%d w=%d t1=%d t2=%d t3=%d" % (p["k"], p["w"], p["t1"], p["t2"], p["t3"]), "connect", "startdt", "step", "rx " + apci.STARTDT_CON.hex(), "step"]
+        n0 = rng.range(0, 2)
+        cl = list(hdr)
+        for j in range(n0):
+            cl += ["rxi " + c07.peer_asdu(j + 1).hex(), "step"]
+        if i % 2 == 0:
+            half = p["t2"] * 500
+            cl += ["cbsend 1", "rxi " + c07.peer_asdu(n0 + 1).hex(), "step", "adv %d" % half, "step", "rxi " + c07.peer_asdu(n0 + 2).hex(), "step",
+                   "adv %d" % (p["t2"] * 1000 - half - 1), "step", "adv 2", "step", "step"]
+        else:
+            cl += ["rxi " + c07.peer_asdu(n0 + 1).hex(), "step", "rxi " + c07.peer_asdu(99).hex() + " 3", "step", "step"]
+        cs.append(("cdir_%d" % i, cl)); meta["cdir_%d" % i] = p
     rs = runner.run_batch(hsrv, ss, timeout=3600)
     rc = runner.run_batch(hcli, cs, timeout=3600)
     rm = runner.run_batch(m, ss, timeout=3600) if m else {}
